@@ -26,8 +26,14 @@
    skipper consumed exactly |enc v|, returned exactly enc v, ReadLen / source position advanced
    by exactly |enc v| (bufiox-backed skippers are excused when the script stalls: a run of
    maxConsecutiveEmptyReads empty reads makes bufiox give up — C04's no_stall premise).
-   agree: the same observables against the executable models (Model/Skip, StreamSkip,
-   SkipDecoders) once they are in the tree; until then the grammar's prediction. *)
+   When a tree is ill-typed or higher than 63 the spec demands nothing (tag 90; not generated).
+   agree: every observable (incl. error/ok under stalling scripts, which specok excuses) against
+   the five executable models: Model/Skip.binary_skip, Model/StreamSkip.br_skip over the bufiox
+   reader model, Model/SkipDecoders bs_next / pk_next / rf_next, threaded through the sequence of
+   values exactly as the harness threads the real decoders (Release + re-New = pk_new / bs_new /
+   rf_new on the same reader / remaining bytes / source).
+   A harness entry (-98) = the skipper did not return (hang), (-97) = not run after 10
+   deviating cases; both count as disagreement and spec failure. *)
 From GV Require Import Lib.Bytes Lib.Res Gen.Consts Corr.Val Spec.ThriftGrammar.
 From GV Require Import Model.Binary Model.BufReader Model.Skip Model.StreamSkip Model.SkipDecoders.
 Open Scope N_scope.
